@@ -473,7 +473,13 @@ def forms_of(program, skip_gen_ifexp=True):
     out = [program.clone(form='str')]
     decompilable = not (skip_gen_ifexp and has_ifexp(program))
     if decompilable: out.insert(0, program.clone(form='gen'))
-    if program.lam is not None and decompilable: out.append(program.clone(form='lam'))
+    if program.lam is not None and decompilable:
+        # a lambda whose parameter is captured by a nested generator/lambda AND that reads closure variables decompiles
+        # with rotated variable names (property C03, C03-LAMBDA-CELL-PARAM-WITH-FREEVARS): not emitted in lambda form
+        cond = program.lam.get('cond') or ''
+        nested = program.params and (' for ' in cond or 'lambda' in cond) and any(
+            isinstance(n, (ast.GeneratorExp, ast.Lambda)) for n in ast.walk(ast.parse('(' + cond + ')')))
+        if not nested: out.append(program.clone(form='lam'))
     return out
 
 
@@ -922,6 +928,8 @@ class Interp(object):
         if base is None and (self.null_item_ok or (self.o2o_active and 'o2o_left_join' in self.dev)):
             t = self.stype(node.value)
             if isinstance(t, tuple) and t[0] == 'ent':
+                a = self.schema.ents[t[1]].attrs.get(node.attr)
+                if a is not None and a.is_set: return set()
                 h = self.schema.ents[t[1]].all_hybrids.get(node.attr)
                 if h is not None and h.kind == 'property':
                     saved = self.tenv
@@ -1994,6 +2002,12 @@ def scan_shapes(it, tree):
                 if isinstance(bt, tuple) and bt[0] == 'ent' and isinstance(pt, tuple) and pt[0] == 'ent' and n.attr != 'id':
                     root = it._root_name(n)
                     (inner if root in own else outer).add(bt[1])
+            if isinstance(n, ast.Attribute):
+                saved = it.tenv; it.tenv = tenv
+                try: a = it._opt_attr(n)
+                finally: it.tenv = saved
+                if a is not None and a.reverse.is_ref and a.reverse.kind == 'req':      # reverse one-to-one: needs its table
+                    (inner if it._root_name(n) in own else outer).add(a.typ)
         return inner, outer
     def visit(node, tenv, depth):
         for child in ast.iter_child_nodes(node):
@@ -2192,6 +2206,16 @@ def compare(result, rr):
             miss, extra = counter_diff(alt, Counter(prow))
             if not miss and not extra: return 'lenient_agree', 'aggregated with uncertain rows'
         return 'no_reference', 'aggregated query with ambiguous/flagged source rows and no matching reading'
+    if rr.mode == 'set' and any(has_gc(k) for k in rr.may):
+        # group_concat values: the order of the parts is unspecified, so two differently ordered strings of one
+        # reference value both match it (and DISTINCT may or may not merge them): many-to-many matching
+        ps, must_s, may_s = set(prow), set(rr.must), set(rr.may)
+        miss = [m for m in must_s if not any(value_match(m, p) for p in ps)]
+        extra = [p for p in ps if not any(value_match(m, p) for m in may_s)]
+        if miss: return 'disagree', 'missing rows %s' % sorted(map(repr, miss))[:6]
+        if extra: return ('no_reference', 'surplus rows while python would raise on some row') if rr.flagged else \
+            ('disagree', 'surplus rows %s' % sorted(map(repr, extra))[:6])
+        return ('lenient_agree' if rr.uncertain else 'agree'), ''
     if rr.mode == 'set' or rr.aggregated and False:
         pc = Counter(set(prow))
         must = Counter(set(rr.must)); may = Counter(set(rr.may))
